@@ -149,7 +149,7 @@ pub fn run(args: &Args, which: &str) -> SubResult {
     let ws = worlds(thorough);
     let seeds: Vec<u64> = if thorough { vec![0, 5, 4, 7] } else { vec![0, 5] };
     res.bound = format!(
-        "{} initial dependency graphs (3 scripted nodes from menus, 2 leaves + fall-back leaf + directory) x hash seeds {:?} x rounds: depth 1 = every 1- and 2-edit round x {{single events, one batch, batch with duplicates+noise}}, depth 2 = every single-edit round after every {} round; hot_reload mode and enhance_hot_reloading mode; quiescence barrier after every operation",
+        "{} initial dependency graphs (3 scripted nodes from menus, 2 leaves + fall-back leaf + directory) x hash seeds {:?} x rounds: depth 1 = every 1- and 2-edit round x {{single events, one batch, batch with duplicates+noise}}, depth 2 = every single-edit round after every {} round; hot_reload mode and enhance_hot_reloading mode; quiescence barrier after every operation; C06 additionally: an orphan-entry world (raw file reads, rewiring, late first load) to depth 5/6",
         ws.len(), seeds, if thorough { "first" } else { "single-edit first" }
     );
     res.rule = "explicit-state search: state = history re-executed on a fresh real cache under detsched (default schedule + quiesce barrier); canonical state = (source map, cached values, model dependency graph); oracle after every pass = reference evaluator on current source and current real cache; distinct = distinct (canonical state, observations)".into();
@@ -167,8 +167,44 @@ pub fn run(args: &Args, which: &str) -> SubResult {
             cases.push((wi, 0, true));
         }
     }
-    let total = cases.len();
+    // orphan-entry world (C06 only): raw file reads make it possible for an entry to stay known to the
+    // reloader while nothing depends on it any more; a notification for it must be consumed by the
+    // next pass and never resurface when some asset starts reading that entry later
+    let orphan_moves: Vec<Move> = vec![
+        Move { name: "t->r1".into(), ops: vec!["put t.n F:r1".into(), "ev F:t.n".into(), "hr".into()] },
+        Move { name: "t->r0".into(), ops: vec!["put t.n F:r0".into(), "ev F:t.n".into(), "hr".into()] },
+        Move { name: "r0!".into(), ops: vec!["put r0.r x1".into(), "ev F:r0.r".into(), "hr".into()] },
+        Move { name: "r1!".into(), ops: vec!["put r1.r y1".into(), "ev F:r1.r".into(), "hr".into()] },
+        Move { name: "load u".into(), ops: vec!["load N u".into()] },
+        Move { name: "remove u".into(), ops: vec!["remove N u".into()] },
+        Move { name: "hr".into(), ops: vec!["hr".into()] },
+        Move { name: "r0 (no pass)".into(), ops: vec!["put r0.r x2".into(), "ev F:r0.r".into()] },
+    ];
+    let n_orphan = if c06 { orphan_moves.len() } else { 0 };
+    let total = cases.len() + n_orphan;
+    let n_main = cases.len();
     vcommon::run_cases(args, res, total, std::time::Duration::from_secs(if thorough { 3400 } else { 400 }), |idx, res| {
+        if idx >= n_main {
+            // one worker per first move
+            let first = idx - n_main;
+            let cfg = HCfg {
+                ctor: "hot".into(),
+                seed: (first as u64 % 2) * 5,
+                with_other: false,
+                leaves: vec![],
+                nodes: vec!["t".into(), "u".into()],
+                dirs: vec![],
+                files: vec!["r0.r=x0".into(), "r1.r=y0".into(), "t.n=F:r0".into(), "u.n=F:r0".into()],
+                check_c05: true,
+                check_c06: true,
+                check_c10: false,
+                check_ledger: true,
+                check_presence: false,
+            };
+            let s = Search { harness: which, cfg, init: vec!["load N t".into()], moves: vec![vec![orphan_moves[first].clone()], orphan_moves.clone()], depth: if thorough { 6 } else { 5 }, dedup: true, max_hist: 0 };
+            run_search(res, &s);
+            return;
+        }
         let (wi, seed, static_mode) = cases[idx];
         let (files, _) = &ws[wi];
         let cfg = cfg_for(files.clone(), seed, !c06, c06);
